@@ -1,4 +1,4 @@
-import MahfModel.Model.Log
+import MahfModel.Model.LogC15Cfg
 open MahfModel MahfModel.Log
 
 def c15 (input implOut : Sexp) : Option Verdict := do
@@ -6,8 +6,8 @@ def c15 (input implOut : Sexp) : Option Verdict := do
     | .list (.atom "lg" :: _) => handleProgram input implOut
     | .list (.atom "tl" :: _) => handleWitness input implOut
     | .list (.atom "fl" :: _) => handleFloats input implOut
-    | .list (.atom "cfg" :: _) => handleConfig input implOut
+    | .list (.atom "cfg" :: _) => handleConfigX input implOut
     | _ => none)
-  pure { agree := Sexp.beq (canonOut r.model) (canonOut implOut), holds := r.holds, cls := r.cls, model := r.model }
+  pure { agree := Sexp.beq (canonOut r.model) (canonOut (canonPair implOut)), holds := r.holds, cls := r.cls, model := r.model }
 
 def main : IO Unit := driverMain (respond c15)
